@@ -1,36 +1,7 @@
 #![feature(allocator_api)]
 #![allow(unused, non_snake_case, deprecated)]
-// Unit "core": U1 (stack/util helpers), U2 (can_emit guards), U3 (process_stack_ops effects).
-// Function bodies are pasted from /repo/src by lib/extract.py on every run.
-use vstd::prelude::*;
-use std::collections::{HashMap, HashSet};
-
-verus! {
-global size_of usize == 8;
-#[derive(Clone, Copy, PartialEq, Eq, Structural)]
-//@item src/opcodes.rs enum OpcodeKind
-#[derive(Clone, Copy, PartialEq, Eq, PartialOrd, Ord, Structural)]
-//@item src/protocol.rs enum Version
-} // verus!
-
-//@include build/gen/ref_tables_verus.rs
-//@include contracts/refmachine.rs
-
-verus! {
-//@item src/stack.rs struct InstanceObject
-//@item src/stack.rs enum StackObject
-//@item src/stack.rs struct Stack
-//@item src/state.rs struct State
-//@item src/generator/mod.rs struct Generator
-//@field-type mutators VfMutators
-#[verifier::external_body]
-pub struct VfMutators { inner: usize }
-#[verifier::external_body]
-pub struct VfSnapshot { inner: usize }
-pub struct VfError { pub code: u8 }
-} // verus!
-
-//@include contracts/shim.rs
+// Unit "core": generator side (U1-U6): function bodies are pasted from /repo/src by lib/extract.py on every run.
+//@include-template contracts/prelude.tpl.rs
 
 verus! {
 
